@@ -22,7 +22,7 @@ _RAMPS: dict[int, bytes] = {}
 def _ramp(k: int) -> bytes:
     r = _RAMPS.get(k)
     if r is None:
-        r = bytes(((i * 3 + 7) ^ k) & 0xFF for i in range(SECTOR - 16))
+        r = bytes((((i >> 3) * 5 + 7) ^ k) & 0xFF for i in range(SECTOR - 16))  # runs of 8: deflate-friendly
         _RAMPS[k] = r
     return r
 
